@@ -122,16 +122,19 @@ PAIRS = [pair(S0, S0), pair(S0, S2), pair(S2, S0), pair(S1, seq([B2])), pair(S2,
 
 def iter_configs(tier):
     th = tier == "thorough"
-    return [
+    c = [
         # one iterator: every history of up to MAXOPS calls (walk past the end, slices midway / twice, ...)
-        dict(name="iter-one", SETS=tset([S0, S1, S2, S3] + ([S4] if th else [])), PAIRS="{}", NIT=1, MAXOPS=10 if th else 8),
+        dict(name="iter-one", SETS=tset([S0, S1, S2, S3, S4]), PAIRS="{}", NIT=1, MAXOPS=12 if th else 10),
         # two iterators over the same / different Sets, interleaved
-        dict(name="iter-two", SETS=tset([S0, S1, S2] + ([S3] if th else [])), PAIRS="{}", NIT=2, MAXOPS=7 if th else 6),
+        dict(name="iter-two", SETS=tset([S0, S1, S2, S3]), PAIRS="{}", NIT=2, MAXOPS=8 if th else 7),
         # merge iterators: empty / exhausted operands, equal keys (first Set wins), interleaved keys
-        dict(name="iter-merge", SETS="{}", PAIRS=tset(PAIRS), NIT=1, MAXOPS=9 if th else 7),
+        dict(name="iter-merge", SETS="{}", PAIRS=tset(PAIRS), NIT=1, MAXOPS=10 if th else 8),
         # a merge iterator next to a plain one over one of its operands
-        dict(name="iter-mixed", SETS=tset([S2]), PAIRS=tset([PAIRS[4], PAIRS[5], PAIRS[1]]), NIT=2, MAXOPS=7 if th else 6),
+        dict(name="iter-mixed", SETS=tset([S2]), PAIRS=tset([PAIRS[4], PAIRS[5], PAIRS[1]]), NIT=2, MAXOPS=8 if th else 7),
     ]
+    if th:
+        c.append(dict(name="iter-three", SETS=tset([S0, S1, S2]), PAIRS=tset([PAIRS[4]]), NIT=3, MAXOPS=7))
+    return c
 
 
 SIM = dict(name="sim-boundary", NKEYS=12, VALS=tset([I1, SA]), PREDS=tset([pred("allow", (1, 5, 9, 12)), pred("deny", (2, 11))]),
